@@ -1,5 +1,6 @@
 """Unit-level native replay batteries (generated #[test]s on the real functions) for properties whose counterexamples are
 read off symbolic traces: C08, C09, C19. Run only when a check has violations that were not replayed; a FAILED test confirms."""
+import os
 from common import *
 import replay as rp
 
@@ -652,6 +653,9 @@ BATTERIES = {
     "C12": [("azure-proxy-agent", [("proxy_agent/src/common/helpers.rs", C12_HELPERS), ("proxy_agent/src/key_keeper/key.rs", C12_KEY),
                                    ("proxy_agent/src/host_clients/wire_server_client.rs", C12_WIRE), ("proxy_agent/src/key_keeper.rs", C12_LOOP)], "verif_battery_c12", True)],
     "C13": [("azure-proxy-agent", [("proxy_agent/src/key_keeper.rs", C13_NOTIFY)], "verif_battery_c13", True)],
+    # C07: a REAL kernel audit_map (map-only BPF object, no program attached; needs the bpf() syscall, i.e. root): the test plays the kernel,
+    # writes attribution records for chosen source ports and drives the real TcpConnectionContext::new / ProxyServer accept path
+    "C07": [("azure-proxy-agent", [("@patch", os.path.join(os.path.dirname(os.path.dirname(os.path.abspath(__file__))), "harness", "native", "c07_real_audit_map.diff"))], "c07_", True)],
     "C17": [("proxy_agent_setup", [("proxy_agent_setup/tests/verif_roundtrip.rs", C17_ROUNDTRIP)], "c17_", False, ["--release", "--test", "verif_roundtrip"])],
     "C19": [("proxy_agent_shared", [("proxy_agent_shared/src/logger/rolling_logger.rs", C19_SHARED + C19_RESTART)], "verif_battery_c19_", False),
             ("proxy_agent_shared", [("proxy_agent_shared/src/telemetry/event_logger.rs", C19_EVENTS)], "verif_battery_c19_events", False),
